@@ -462,7 +462,7 @@ func (E *Engine) solveOne(r *FuncResult, o *Obligation, dir string, sem chan str
 		solver string
 		extra  []string
 	}
-	cfgs := []cfg{{"z3-new", nil}, {"z3", nil}, {"cvc5", nil}}
+	cfgs := []cfg{{"z3-new", nil}, {"z3-new-mbqi", nil}, {"z3", nil}, {"cvc5", nil}}
 	resc := make(chan SolverRes, len(cfgs))
 	for _, c := range cfgs {
 		c := c
